@@ -72,9 +72,10 @@ def miStr : MI → String
   | .b i => pretty i
   | .c ci => prettyC ci
 
-/-- a state in which every register holds a recognisable value -/
+/-- a state in which every register holds a recognisable value (odd registers: sign bit set) -/
 def markedState : State :=
-  { regs := fun i => 0x5A000000 + i * 0x01010101 % 0x1000000, pc := 0x1000, mem := fun a => a % 251, csr := fun _ => 0 }
+  { regs := fun i => (if i % 2 = 1 then 0xA5000000 else 0x5A000000) + i * 0x01010101 % 0x1000000,
+    pc := 0x1000, mem := fun a => a % 251, csr := fun _ => 0 }
 
 def valStr (rd : Nat) : Option State → String
   | some s => toString (s.get rd)
